@@ -60,6 +60,37 @@ TEXT = {
             "variants in any order with duplicates = parsing the joined string; Locale parts with the extension string re-parsed (C05). "
             "Correspondence: parts / raw round trips and from_parts vs parse on generated values.",
             "proof of pack/unpack inverse and of from_parts = parse"),
+    "C03": ("Theorems against the independent three-zone oracle (Spec/Locale.lean, written from the UTS #35 grammar): must_accept - every "
+            "token list the strict grammar reads is parsed to exactly the oracle's value (all subtags, normalised); never_drops - every "
+            "accepted byte string is read by the relaxed grammar (boundary empties stripped) to exactly the stored value; hence every "
+            "input in the reject zone is an error (must_reject_bytes, zone_reject_bytes); Locale.parse never panics. Built on one "
+            "characterisation lemma per parser loop. Correspondence: loc/ext on bounded-exhaustive token sequences, well-formed, near-miss "
+            "and raw streams; the oracle's zone and value judge the implementation directly.",
+            "proof of two simulations between the parser model and a declarative grammar reader"),
+    "C09": ("Theorems: (i) for ALL byte strings, inputs equal up to case and '-'/'_' give the same Res (same value or same error) for "
+            "Locale, LanguageIdentifier, ExtensionsMap and each subtag type; (ii) on token lists with arbitrary context: order/repetition of "
+            "variants (also inside a tlang) and of -u- attributes, order of keywords / tfields with distinct keys, and swapping the -u- and "
+            "-t- sections give the same Res (or, for ill-formed bodies, both fail). Correspondence: pairs of spellings related by these "
+            "transformations (also rejected ones).",
+            "proof that every parser factors through case/separator normalisation; permutation lemmas on the functional forms"),
+    "C10": ("Refinement theorem: for every value with the invariant and every public call with arbitrary argument bytes, the abstract value "
+            "and the output equal those of the reference model (Spec/AbsOps.lean: sorted sets, a sorted multiset, ordered maps; written "
+            "from the property); all getters agree (obs_refines); errors leave the value unchanged and happen iff the argument is malformed; "
+            "accepted arguments are stored in the parser's normal form; lifted by induction to every history from default() or any parsed "
+            "value, with the invariant and the re-parse (C05) after every step (histories_full). Correspondence: exhaustive short and random "
+            "long histories, every getter after every step; the reference model itself is also run against the implementation.",
+            "refinement proof to an abstract set/map specification, induction over operation lists"),
+    "C16": ("Theorems about the model of the expansions (Model/Macros.lean): for EVERY literal each macro yields the value run-time parsing "
+            "yields, or a compile-time error iff run-time parsing fails; locale! never fails at run time (the emitted extension string "
+            "re-parses, C05); list macros compile iff every element does. rustc / proc_macro_hack / syn / quote are modelled by contract; "
+            "that contract is exercised on every run by compiling and running a generated crate (one invocation per line, errors attributed "
+            "to lines through the expansion chain) against /repo.",
+            "proof over a model of the macro expansions; generated-program correspondence"),
+    "C19": ("Theorems about the model of serde.rs: serialize = the canonical string (ASCII letters, digits, '-' only, so no JSON escape); "
+            "deserialize(str s) = from_bytes s; deserialize(serialize x) = ok x for every obtainable x (C05); non-string and ill-formed "
+            "inputs are errors; never a panic. serde / serde_json are modelled by contract, exercised by the serde stream (JSON texts with "
+            "random escapes, non-string values, ill-formed text) through from_str and from_value.",
+            "proof over a model of the serde impls; serde_json by contract, exercised by correspondence"),
     "C13": ("Theorems: every input accepted by LanguageIdentifier is accepted by Locale with the same id, no extensions and the same string; "
             "for accepted locale strings without empty subtags the id is the parse of the part before the first singleton; the conversions "
             "are identities / projections. Correspondence: both parsers on the same bytes.",
